@@ -480,7 +480,85 @@ def silent_peer_case(case):
     return verdict
 
 
+def refusals_case(case):
+    """one accepting entity refuses a run of requests (its application raises AssociationRejectedError for them); every
+    refused peer keeps its side open after the A-ASSOCIATE-RJ.  Each of those connections must be closed by the entity
+    within the ARTIM period, and the entity must go on serving: a good request afterwards is accepted and answered."""
+    import socket
+    from pynetdicom2 import applicationentity as aem, sopclass as sc, exceptions, pdu
+    from . import scen, s3
+
+    class Srv(aem.AE):
+        def on_association_request(self, asce, assoc_req):
+            if assoc_req.calling_ae_title.strip().startswith('BAD'):
+                raise exceptions.AssociationRejectedError(1, 1, 3)
+    srv = Srv('SRV', 0)
+    srv.timeout = 30
+    srv.add_scp(sc.verification_scp)
+    port = srv.server_address[1]
+    problems = []
+    with srv:
+        conns = []
+        for k in range(case['refused']):
+            c = socket.create_connection(('127.0.0.1', port), timeout=10)
+            rq = scen.rq_pdu()
+            rq.calling_ae_title = 'BAD%d' % k
+            c.sendall(rq.encode())
+            conns.append(c)
+        t0 = time.time()
+        for k, c in enumerate(conns):
+            buf = b''
+            try:
+                while not s3.frames(buf):
+                    d = c.recv(4096)
+                    if not d:
+                        break
+                    buf += d
+            except OSError as e:
+                problems.append('refused request %d: %r while waiting for the answer' % (k, e))
+                continue
+            if not buf or buf[0] != 3:
+                problems.append('refused request %d was answered with %s, not an A-ASSOCIATE-RJ' % (k, 'PDU type %d' % buf[0] if buf else 'a close'))
+        still = 0
+        for k, c in enumerate(conns):
+            c.settimeout(max(0.5, case['wait'] - (time.time() - t0)))
+            try:
+                if c.recv(16) != b'':
+                    pass
+            except socket.timeout:
+                still += 1
+            except OSError:
+                pass
+        if still:
+            problems.append('%d of %d refused connections whose peer kept its side open were still open %d s after the refusal'
+                            % (still, len(conns), case['wait']))
+        try:
+            cli = aem.ClientAE('GOOD').add_scu(sc.verification_scu)
+            cli.timeout = 10
+            with cli.request_association({'aet': 'SRV', 'address': '127.0.0.1', 'port': port}) as assoc:
+                st = assoc.get_scu(sc.VERIFICATION_SOP_CLASS)(1)
+                if int(st) != 0:
+                    problems.append('echo after the refusals: status %r' % int(st))
+        except BaseException as e:  # pylint: disable=broad-except
+            problems.append('after %d refused requests a good request failed: %r (gave up after 10 s)' % (case['refused'], e))
+        for c in conns:
+            c.close()
+    return '; '.join(problems[:3]) or None
+
+
+def entity_job(case):
+    """one real-entity case, run in a worker process: a verdict text, a list of problems (rounds), or None"""
+    try:
+        if 'plans' in case:
+            return run_round(case) or None
+        return replay(case)
+    except BaseException as e:  # pylint: disable=broad-except
+        return 'harness:' + common.describe_exc(e)
+
+
 def replay(case):
+    if case.get('refusals'):
+        return refusals_case(case)
     if case.get('wrapper_ids'):
         return wrapper_ids_case(case)
     if case.get('silent_peer'):
@@ -560,25 +638,25 @@ def run(chk):
     chk.count('encode-soak:messages', es['threads'] * es['rounds'])
     if probs:
         chk.violation('C20:encode-soak', 'concurrent associations: ' + '; '.join(probs[:3]), es)
-    # one entity requesting several associations at once, one of them to a dead peer
-    dp = {'dead_peer': True, 'timeout': 6, 'healthy': 3}
-    r = dead_peer_case(dp)
-    chk.case('dead-peer', True, {'dead_peer': 'one entity, 3 healthy requests + 1 to a peer that never answers'})
-    chk.count('dead-peer')
-    if r and dead_peer_case(dp):             # a timing verdict on real threads counts only if it reproduces
-        chk.violation('C20:dead-peer', r, dp)
-    wi = {'wrapper_ids': True, 'threads': 4, 'calls': 3}
-    r = wrapper_ids_case(wi)
-    chk.case('wrapper-ids', True, {'wrapper_ids': '4 threads x 3 c_find() calls, ids seen by the provider'})
-    chk.count('wrapper-ids')
-    if r and (not common.timing_verdict(r) or (wrapper_ids_case(wi) and wrapper_ids_case(wi))):
-        chk.violation('C20:wrapper-ids', r, wi)
-    sp = {'silent_peer': True, 'busy': 3, 'wait': 16}
-    r = silent_peer_case(sp)
-    chk.case('silent-peer', True, {'silent_peer': 'one entity: a silent connection while 3 associations run'})
-    chk.count('silent-peer')
-    if r and (not common.timing_verdict(r) or (silent_peer_case(sp) and silent_peer_case(sp))):
-        chk.violation('C20:silent-peer', r, sp)
+    # real entities on loopback TCP, each case in a worker process of its own with a time limit (an entity that hangs in
+    # shutdown or accept is a verdict, not a hung check); the four run side by side
+    jobs = [({'dead_peer': True, 'timeout': 6, 'healthy': 3}, 'dead-peer', 'one entity, 3 healthy requests + 1 to a peer that never answers'),
+            ({'wrapper_ids': True, 'threads': 4, 'calls': 3}, 'wrapper-ids', '4 threads x 3 c_find() calls, ids seen by the provider'),
+            ({'refusals': True, 'refused': 24, 'wait': 13}, 'refusals', '24 refused requests whose peers stay connected, then a good one'),
+            ({'silent_peer': True, 'busy': 3, 'wait': 16}, 'silent-peer', 'one entity: a silent connection while 3 associations run')]
+    res = common.bounded_map(entity_job, [j[0] for j in jobs], 4, 150)
+    for (case, label, what), r in zip(jobs, res):
+        if isinstance(r, str) and r.startswith('harness:'):
+            common.raise_for(r[len('harness:'):])
+        chk.case(label, True, {label: what})
+        chk.count(label)
+        if r:
+            r = '%s: %s' % (label, r if isinstance(r, str) else '; '.join(r[:3]))
+            # a verdict that depends on real time on real threads counts only if it reproduces twice more
+            if common.timing_verdict(r) and not all(common.bounded_map(entity_job, [case, case], 2, 150)):
+                chk.count('timing-verdict-not-reproduced')
+                continue
+            chk.violation('C20:' + label, r, case)
     rounds = [(4, 3), (16, 2), (32, 1)] if tier == 'quick' else [(4, 10), (16, 10), (32, 5), (48, 3)]
     seed = 0
     for n, reps in rounds:
@@ -586,11 +664,11 @@ def run(chk):
             seed += 1
             case = make_case(rnd, n, seed)
             t0 = time.time()
-            try:
-                problems = run_round(case)
-            except Exception as e:  # pylint: disable=broad-except
-                import traceback
-                common.raise_for(common.describe_exc(e))
+            problems = common.bounded_map(entity_job, [case], 1, 400)[0]
+            if isinstance(problems, str):
+                if problems.startswith('harness:'):
+                    common.raise_for(problems[len('harness:'):])
+                problems = [problems]
             chk.case(repr(case), n >= 4, {'clients': n, 'aborting': sum(1 for p in case['plans'] if p['abort_after'] is not None),
                                           'seconds': round(time.time() - t0, 1)})
             chk.count('clients:%d' % n)
@@ -598,7 +676,7 @@ def run(chk):
             if problems:
                 # data mismatches count at once; a liveness problem only if it reproduces
                 if all(common.timing_verdict(p) for p in problems):
-                    if not run_round(case) or not run_round(case):
+                    if not all(common.bounded_map(entity_job, [case, case], 2, 400)):
                         chk.count('timing-verdict-not-reproduced'); continue
                 chk.violation('C20:' + problems[0][:30], '%d clients, seed %d: %s' % (n, seed, '; '.join(problems[:3])), case)
     chk.lean(['Dicom.Props.C20'])
